@@ -147,7 +147,8 @@ type hworld struct {
 	draining bool
 	topicSeen bool
 	restarts  int
-	oldInflight map[string]map[string]bool // channel -> bodies in the previous daemon's in-flight table after Exit
+	pumpSends   map[string]int // channel -> sends by consumer pumps after a flush had started
+	oldInflight map[string]map[string]bool // channel -> bodies registered in flight AFTER Channel.flush started (previous daemon)
 	preN      int // publishes made by the preamble (HistCfg.Pre)
 }
 
@@ -1134,6 +1135,11 @@ func (h *hworld) Drain() {
 			clause := "C01 acknowledged message lost"
 			if h.restarts > 0 {
 				clause = "C05 C01 acknowledged unfinished message lost across a graceful restart"
+				if !h.oldInflight[p.ch][p.m.body] && h.pumpSends[p.ch] > 0 {
+					// a pump read the message back from the backend the flush had just written
+					h.pumpSends[p.ch]--
+					h.oldInflight[p.ch][p.m.body] = true
+				}
 				if h.oldInflight[p.ch][p.m.body] {
 					clause = "C05 message in the hands of a delivery pump lost by a graceful shutdown"
 				}
@@ -1196,6 +1202,7 @@ func (h *hworld) restart() {
 	old.Quiesce()
 	h.restarts++
 	h.hist = append(h.hist, "EXIT+RESTART")
+	fw := WatchFlush(old.N)
 	old.N.Exit()
 	old.exited = true
 	// post-mortem of the old daemon (see the C05 known finding): Channel.flush writes the
@@ -1204,18 +1211,19 @@ func (h *hworld) restart() {
 	// consumer's messagePump that took it off the queue (or off the just-flushed backend)
 	// while Exit was closing the channel
 	vrt.Quiesce() // (consumer pumps are told to stop, not waited for: let them finish)
+	fw.Stop()
 	if h.oldInflight == nil {
 		h.oldInflight = map[string]map[string]bool{}
+		h.pumpSends = map[string]int{}
 	}
 	for _, cn := range h.chanNames() {
-		if c := old.Channel(hTopic, cn); c != nil {
-			if h.oldInflight[cn] == nil {
-				h.oldInflight[cn] = map[string]bool{}
-			}
-			for _, m := range c.inFlightMessages {
-				h.oldInflight[cn][string(m.Body)] = true
-			}
+		if h.oldInflight[cn] == nil {
+			h.oldInflight[cn] = map[string]bool{}
 		}
+		for body := range fw.RegisteredAfterFlush(hTopic, cn) {
+			h.oldInflight[cn][body] = true
+		}
+		h.pumpSends[cn] += fw.SendsAfterFlush(hTopic, cn)
 	}
 	// a restart takes time: without this the new process would start in the very same
 	// (virtual) millisecond, and its id generator - same node id, sequence back at 0 - would
